@@ -20,7 +20,7 @@ BOUNDS = {
     "quick": "FIFO / Wide (start/stop counts <= 2) / Tagged measurers, slots 2 (Wide also 3 -> rounded to 4), max_latency 7 and 3 (wrap-around of the epoch "
              "counter inside the bound), ways 1..2, BMC 8 cycles, all start/stop call histories obeying the documented usage",
     "thorough": "slots 1..4, max_latency in {2, 3, 5, 7}, ways 1..2 (3 for the FIFO kind), BMC 11 cycles; Wide start/stop counts (1,1) BMC 11, "
-                "(2,2), (2,1), (1,2) BMC 9 with 2 slots and BMC 8 with 3..4 slots (solver time grows ~4x per cycle there)",
+                "(2,2), (2,1), (1,2) BMC 9 with 2 slots and BMC 7 with 3..4 slots (solver time grows ~4x per cycle there)",
 }
 OUTSIDE = ["latencies above max_latency (documented overflow): only the presence of the sample is checked, not its value",
            "misuse: stop of more events than pending (Wide), start of a taken slot / stop of a free slot / two ways using the same slot in one cycle (Tagged)",
@@ -30,6 +30,7 @@ ASSUMES = ["single clock domain, reset held low", "callers are AdapterTrans tran
            "Wide: an enabled stop asks for at most the number of pending events of its way ('when used correctly')",
            "Tagged: enabled starts name free, pairwise distinct slots < slots_number; enabled stops name taken, pairwise distinct slots"]
 W = 8
+QUERY_TIMEOUT_S = 300.0  # the two-column WideFifo unrollings need up to ~60 s of solver time on an idle machine
 
 
 def configs(tier, seed):
@@ -63,7 +64,7 @@ def configs(tier, seed):
                         if ways == 2 and (ml == 3 or slots == 3):
                             continue
                         # two-column WideFifo: the unrolling gets ~4x harder per cycle, bound chosen so that no query times out
-                        k = 11 if max(sc, pc) == 1 else (9 if slots == 2 else 8)
+                        k = 11 if max(sc, pc) == 1 else (9 if slots == 2 else 7)
                         out.append(dict(kind="wide", slots=slots, max_latency=ml, ways=ways, start_count=sc, stop_count=pc, K=k))
     return out
 
@@ -143,7 +144,8 @@ def _step_fifo(cfg, k):
         wit["all slots taken"] = cnt == cap
         if cap > 1:
             wit["start and stop in the same cycle"] = z3.And(sd, pd, sc != 0, pc != 0)
-        wit["latency of exactly max_latency measured"] = z3.And(pd, pc != 0, now - oldest == ml)
+        if ml <= cfg["K"] - 1:
+            wit["latency of exactly max_latency measured"] = z3.And(pd, pc != 0, now - oldest == ml)
         if ml < cfg["K"] - 1:
             wit["latency above max_latency occurs (outside the claim)"] = z3.And(pd, pc != 0, z3.UGT(now - oldest, ml))
         wit["start called but blocked"] = z3.And(o.en(f"start{k}"), z3.Not(sd))
@@ -191,7 +193,8 @@ def _step_tagged(cfg):
         wit["all slots taken"] = z3.And(*taken)
         if slots > 1:
             wit["a start and a stop in the same cycle"] = z3.And(sd[0], pd[-1])
-        wit["latency of exactly max_latency measured"] = z3.And(pd[0], now - sel(since, ps[0]) == ml)
+        if ml <= cfg["K"] - 1:
+            wit["latency of exactly max_latency measured"] = z3.And(pd[0], now - sel(since, ps[0]) == ml)
         if ml < cfg["K"] - 1:
             wit["latency above max_latency occurs (outside the claim)"] = z3.And(pd[0], z3.UGT(now - sel(since, ps[0]), ml))
         if slots > 1:
